@@ -408,7 +408,7 @@ struct Engine : EngineBase {
 
     std::uintptr_t** cell_for(type_id id) {
         type_id key = Policy::type_index(id);
-        if (key == Policy::type_index(g_obj_static_id) && g_obj_static_id != 0) {
+        if (g_obj_static_id != static_cast<type_id>(-2) && key == Policy::type_index(g_obj_static_id)) {
             return &Policy::template static_vptr<Obj>;
         }
         auto it = cell_of_key_.find(key);
